@@ -84,6 +84,10 @@ pub fn queries() -> Vec<Q> {
         Q::select("t", vec![col("id"), bin(BinOp::Add, col("a"), col("id")), bin(BinOp::Mul, col("a"), E::Int(3))]),
         Q::select("t", vec![col("id"), bin(BinOp::Div, col("w"), E::Int(7)), bin(BinOp::Mod, col("a"), E::Int(4))]),
         Q::select("t", vec![col("id"), bin(BinOp::Add, col("ni"), E::Int(1)), E::Length(Box::new(col("s")))]),
+        // filtered projections / aggregates of nullable columns (streamed filter output carries a null map)
+        Q::select("t", vec![col("id"), col("ni"), col("nf"), col("ns"), col("late")]).filter(gt("a", 3)),
+        Q::select("t", vec![col("id"), col("ni"), col("ns")]).filter(gt("ni", 0)),
+        Q::select("t", vec![agg(Agg::Min, col("ni")), agg(Agg::Max, col("ni")), agg(Agg::Min, col("nf")), agg(Agg::Max, col("nf"))]).filter(gt("a", 3)),
         // sorts (id as last key makes the order total)
         Q::select("t", vec![col("id"), col("a")]).order_by(col("a"), false).order_by(col("id"), false),
         Q::select("t", vec![col("id"), col("s")]).order_by(col("s"), true).order_by(col("id"), false),
